@@ -176,7 +176,7 @@ def run(ctx):
         'model_error_discarded': stats['model_error_discarded'], 'model_vs_spec_differences': stats['model_vs_spec_differences'],
         'model_overflow_flagged': stats['model_overflow_flagged'],
         'generator_histogram': hist, 'case_features': stats['features'],
-        'int_min_probe': ('disabled (PROBE_INT_MIN = True)' if not PROBE_INT_MIN else ('misbehaviour observed' if probe else 'no misbehaviour')),
+        'int_min_probe': ('disabled' if not PROBE_INT_MIN else ('misbehaviour observed' if probe else 'no misbehaviour: sanitised harness and plain -O0 build both equal the specification (one call, detached)')),
         'header_sha': {h: vlib.sha(os.path.join(vlib.REPO, 'include/eventpp/utilities', h)) for h in ('counterremover.h', 'conditionalremover.h')},
     })
     ctx.assumptions += [
